@@ -1,6 +1,8 @@
 """Runs pydl.pydlutils.spheregroup.spheregroup of the repository under test on a list of calls (JSON on
-stdin -> JSON on stdout).  The adjacency matrix is computed with the implementation's own gcirc exactly as
-class groups does it (radians, units=0, `sep <= deg2rad(linklength)`).  By wrapping `chunks` from this
+stdin -> JSON on stdout).  Two adjacency matrices are reported: `adj`, computed with the implementation's own gcirc
+exactly as class groups does it (radians, units=0, `sep <= deg2rad(linklength)`) -- it only breaks ties inside the
+rounding band of C05/Sky.v -- and `adj_indep`, from a formula of this file that does not touch pydl (screening,
+messages, near-threshold rule; the certified decision is taken in Coq from the coordinates).  By wrapping `chunks` from this
 process (no change to pydl) it records: the chunk geometry, the cell lists in the order friendsoffriends
 visits them, each per-cell groups() result, and the value chunk.friendsoffriends returned."""
 import json
@@ -69,8 +71,13 @@ def typed(c):
 
 def one(c):
     ra, dec = typed(c)
-    rows, near = adjacency(ra, dec, float(c['linklength']))
-    out = {'adj': [str(r) for r in rows], 'nearest_threshold_rel': near}
+    try:
+        rows, near_impl = adjacency(ra, dec, float(c['linklength']))
+    except Exception:  # noqa: BLE001 -- the separation routine itself raised; spheregroup below will show it
+        rows, near_impl = [1 << i for i in range(ra.size)], None
+    irows, near = indep_adjacency(ra, dec, float(c['linklength']), rows)
+    out = {'adj': [str(r) for r in rows], 'adj_indep': [str(r) for r in irows], 'nearest_threshold_rel': near,
+           'nearest_threshold_rel_impl': near_impl}
     kw = {}
     if c.get('chunksize') is not None:
         kw['chunksize'] = float(c['chunksize'])
@@ -110,18 +117,61 @@ def py_components(rows, n):
     return lab
 
 
+BAND_REL, BAND_ABS = 1e-9, 1e-13      # the band of C05/Sky.v around the linking length (relative, radians)
+
+
+def indep_sep(ra, dec):
+    """all pairwise separations in radians WITHOUT pydl: chord between unit vectors built from the differences
+    (float64 numpy, own formula; the certified decision is taken in Coq, this one is for screening, messages and
+    the near-threshold rule)"""
+    a = np.deg2rad(np.asarray(ra, dtype='d'))
+    d = np.deg2rad(np.asarray(dec, dtype='d'))
+    sd = np.sin((d[:, None] - d[None, :]) / 2.0)
+    sa = np.sin((a[:, None] - a[None, :]) / 2.0)
+    h = sd * sd + np.cos(d)[:, None] * np.cos(d)[None, :] * sa * sa
+    return 2.0 * np.arcsin(np.sqrt(np.clip(h, 0.0, 1.0)))
+
+
+def indep_adjacency(ra, dec, linklength, impl_rows=None):
+    """rows of the link matrix from indep_sep; inside the band the implementation's bit (if given) is kept.
+    Returns (rows, smallest relative distance of an off-diagonal separation from the linking length)"""
+    sep = indep_sep(ra, dec)
+    rad = float(np.deg2rad(float(linklength)))
+    n = sep.shape[0]
+    link = sep <= rad
+    band = np.abs(sep - rad) <= BAND_REL * rad + BAND_ABS
+    rows = []
+    for i in range(n):
+        bits = 1 << i
+        for j in range(n):
+            if i == j:
+                continue
+            b = bool(link[i, j])
+            if band[i, j] and impl_rows is not None:
+                b = bool(((impl_rows[i] >> j) & 1) or ((impl_rows[j] >> i) & 1))
+            if b:
+                bits |= 1 << j
+        rows.append(bits)
+    off = np.abs(sep - rad)[~np.eye(n, dtype=bool)]
+    near = float(off.min() / rad) if off.size and rad > 0 else None
+    return rows, near
+
+
 def fast_adjacency(ra, dec, linklength):
-    """vectorised; used only by the uncertified screening pass"""
+    """used only by the uncertified screening pass; independent of pydl's gcirc except inside the band"""
     x = np.deg2rad(np.vstack((ra, dec)))
     rad = np.deg2rad(linklength)
-    rows = []
-    for i in range(ra.size):
-        s = SG.gcirc(x[0, i], x[1, i], x[0], x[1], units=0)
-        bits = 0
-        for j in np.nonzero(s <= rad)[0]:
-            bits |= 1 << int(j)
-        rows.append(bits)
-    return rows
+    impl_rows = []
+    try:
+        for i in range(ra.size):
+            s = SG.gcirc(x[0, i], x[1, i], x[0], x[1], units=0)
+            bits = 0
+            for j in np.nonzero(s <= rad)[0]:
+                bits |= 1 << int(j)
+            impl_rows.append(bits)
+    except Exception:  # noqa: BLE001
+        impl_rows = None
+    return indep_adjacency(ra, dec, linklength, impl_rows)[0]
 
 
 def screen(c):
@@ -192,8 +242,13 @@ def history(calls):
     for c in calls:
         ra, dec = typed(c)
         before = (ra.copy(), dec.copy())
-        rows, near = adjacency(ra, dec, float(c['linklength']))
-        r = {'adj': [str(x) for x in rows], 'nearest_threshold_rel': near}
+        try:
+            rows, near_impl = adjacency(ra, dec, float(c['linklength']))
+        except Exception:  # noqa: BLE001
+            rows, near_impl = [1 << i for i in range(ra.size)], None
+        irows, near = indep_adjacency(ra, dec, float(c['linklength']), rows)
+        r = {'adj': [str(x) for x in rows], 'adj_indep': [str(x) for x in irows], 'nearest_threshold_rel': near,
+             'nearest_threshold_rel_impl': near_impl}
         kw = {}
         if c.get('chunksize') is not None:
             kw['chunksize'] = float(c['chunksize'])
